@@ -32,7 +32,7 @@ def run(ctx):
         m, merr, mrc = run_lines(MODELDRV, lines, 600)
         if m is None or mrc != 0 or len(m) != len(lines):
             broken.append('model driver failed: ' + (merr or '')[-300:]); m = (m or []) + [''] * (len(lines) - len(m or []))
-        outs = run_brecovery(exe, work, images)
+        outs = run_brecovery(exe, work, images, timeout=15)
         nontriv = set(); mism = []; bad = []
         for img, kind, exp, mo, (rc, out, err) in zip(images, kinds, expect, m, outs):
             stats[kind] += 1; stats['exit_%s' % rc] += 1
